@@ -15,6 +15,7 @@ use crate::storage::{apply_ops, open_engine};
 use nervusdb_api::GraphStore;
 use nervusdb_storage::engine::GraphEngine;
 use serde_json::{Value as J, json};
+use std::collections::BTreeMap;
 use std::io::Write;
 use std::path::Path;
 use std::sync::{Arc, Mutex};
@@ -616,4 +617,181 @@ fn drive_plan_keep(obs: &Obs, plan: &[(char, String)], handles: &[(char, &JoinHa
         steps.push(json!([name, target, last, status]));
     }
     steps
+}
+
+type LockOp = (&'static str, Box<dyn Fn(u64) + Send + Sync>);
+
+fn steps_of(evs: &[crate::obs::LockEvent]) -> Vec<J> {
+    let mut steps: Vec<J> = Vec::new();
+    for e in evs {
+        match e.phase {
+            1 => steps.push(json!(["acq", e.name, e.mode])),
+            2 => steps.push(json!(["rel", e.name, e.mode])),
+            3 => {
+                steps.push(json!(["acq", e.name, e.mode]));
+                steps.push(json!(["rel", e.name, e.mode]));
+            }
+            _ => {}
+        }
+    }
+    steps
+}
+
+/// One store, one set of public operations: (1) each operation alone, its lock steps recorded; (2) all of them from
+/// `stress_threads` threads under a no-progress watchdog, the lock steps of every call recorded per thread; distinct
+/// step sequences seen only under contention are added as further programs.
+fn lock_universe(universe: &str, obs: &Arc<Obs>, ops: Vec<LockOp>, out: &mut dyn Write, stress_threads: usize, stress_iters: usize) -> J {
+    let mut programs: Vec<J> = Vec::new();
+    let mut seen: std::collections::HashSet<String> = Default::default();
+    for (name, f) in &ops {
+        for k in [1u64, 2] {
+            *obs.lock_log.lock().unwrap() = true;
+            obs.locks.lock().unwrap().clear();
+            f(k);
+            *obs.lock_log.lock().unwrap() = false;
+            let steps = steps_of(&obs.locks.lock().unwrap());
+            if seen.insert(format!("{}", json!(steps))) || k == 1 {
+                programs.push(json!({"universe": universe, "name": format!("{name}/{k}"), "from": "solo", "steps": steps}));
+            }
+        }
+    }
+    let solo = programs.len();
+    let progress = Arc::new(std::sync::atomic::AtomicU64::new(0));
+    let ops = Arc::new(ops);
+    obs.locks.lock().unwrap().clear();
+    *obs.lock_log.lock().unwrap() = true;
+    let mut hs = Vec::new();
+    for t in 0..stress_threads {
+        let (ops, pr, ob) = (ops.clone(), progress.clone(), obs.clone());
+        hs.push(std::thread::Builder::new().name(format!("lk{t}")).spawn(move || {
+            let mut x = 0x9E3779B97F4A7C15u64.wrapping_mul(t as u64 + 1) | 1;
+            for i in 0..stress_iters {
+                x ^= x << 13; x ^= x >> 7; x ^= x << 17;
+                let k = (x % ops.len() as u64) as usize;
+                ob.locks.lock().unwrap().push(crate::obs::LockEvent { thread: format!("lk{t}"), name: ops[k].0, mode: "op", phase: 9 });
+                (ops[k].1)((t * 1_000_000 + i) as u64 + 10);
+                pr.fetch_add(1, std::sync::atomic::Ordering::SeqCst);
+            }
+        }).unwrap());
+    }
+    let mut last = 0u64;
+    let mut stalled_ms = 0u64;
+    let mut deadlock = false;
+    loop {
+        std::thread::sleep(Duration::from_millis(50));
+        if hs.iter().all(|h| h.is_finished()) { break; }
+        let now = progress.load(std::sync::atomic::Ordering::SeqCst);
+        if now == last { stalled_ms += 50; } else { stalled_ms = 0; last = now; }
+        if stalled_ms >= 10_000 { deadlock = true; break; }
+    }
+    *obs.lock_log.lock().unwrap() = false;
+    let done = progress.load(std::sync::atomic::Ordering::SeqCst);
+    let mut stuck: Vec<J> = Vec::new();
+    {
+        // split the recorded stream per thread and per call
+        let evs = obs.locks.lock().unwrap();
+        let mut per: BTreeMap<String, Vec<(String, Vec<crate::obs::LockEvent>)>> = BTreeMap::new();
+        for e in evs.iter() {
+            let calls = per.entry(e.thread.clone()).or_default();
+            if e.phase == 9 {
+                calls.push((e.name.to_string(), Vec::new()));
+            } else if let Some(last) = calls.last_mut() {
+                last.1.push(crate::obs::LockEvent { thread: e.thread.clone(), name: e.name, mode: e.mode, phase: e.phase });
+            }
+        }
+        for (th, calls) in &per {
+            for (idx, (name, ev)) in calls.iter().enumerate() {
+                let unfinished = deadlock && idx + 1 == calls.len();
+                if unfinished {
+                    let waiting = ev.iter().rev().find(|e| e.phase == 0).map(|e| json!([e.name, e.mode]));
+                    stuck.push(json!({"thread": th, "op": name, "steps_so_far": steps_of(ev), "last_attempt": waiting}));
+                    continue;
+                }
+                let steps = steps_of(ev);
+                if seen.insert(format!("{}", json!(steps))) {
+                    programs.push(json!({"universe": universe, "name": format!("{name}/stress{}", programs.len()), "from": "stress", "steps": steps}));
+                }
+            }
+        }
+    }
+    obs.locks.lock().unwrap().clear();
+    for p in &programs {
+        writeln!(out, "{}", p).unwrap();
+    }
+    let res = json!({"universe": universe, "programs": programs.len(), "programs_solo": solo, "stress_threads": stress_threads,
+                     "stress_ops_done": done, "stress_ops_planned": stress_threads * stress_iters,
+                     "no_progress_for_10s": deadlock, "stuck": stuck});
+    if deadlock {
+        // threads are stuck: leave them behind and exit the process with the result printed
+        out.flush().unwrap();
+        println!("{}", json!({"universes": [res]}));
+        std::process::exit(0);
+    }
+    for h in hs { let _ = h.join(); }
+    res
+}
+
+/// C35: the lock programs of the public operations and a watchdogged stress run, for the storage engine API and for the
+/// `Db` + Cypher API (two stores, so two lock universes).
+pub fn run_locks(obs: &Arc<Obs>, out: &mut dyn Write, scratch: &Path, stress_threads: usize, stress_iters: usize) -> J {
+    use nervusdb_api::GraphSnapshot;
+    let dir = scratch.join("locks");
+    let _ = std::fs::remove_dir_all(&dir);
+    std::fs::create_dir_all(&dir).unwrap();
+    let engine = Arc::new(open_engine(&dir).expect("open"));
+    let seed_ops = vec![json!(["CreateNode", "1", "A"]), json!(["CreateNode", "2", "B"]), json!(["CreateEdge", 0, "R", 1]),
+                        json!(["SetNP", 0, "p", "i:1"]), json!(["SetEP", 0, "R", 1, "w", "i:2"])];
+    let _ = apply_ops(&engine, &seed_ops, true);
+    let _ = engine.create_index("A", "p");
+    macro_rules! eop { ($name:expr, |$e:ident, $k:ident| $body:block) => {{ let $e = engine.clone(); ($name, Box::new(move |$k: u64| { let _ = &$k; $body }) as Box<dyn Fn(u64) + Send + Sync>) }}; }
+    let ops: Vec<LockOp> = vec![
+        eop!("commit-create", |e, k| { let _ = apply_ops(&e, &[json!(["CreateNode", (1000 + k).to_string(), "A"]), json!(["SetNP", 0, "p", "i:3"]), json!(["CreateEdge", 0, "R", 1])], true); }),
+        eop!("commit-new-label", |e, k| { let _ = apply_ops(&e, &[json!(["CreateNode", (500000 + k).to_string(), format!("L{}", k % 7)]), json!(["AddLabel", 0, format!("M{}", k % 5)])], true); }),
+        eop!("commit-delete", |e, k| { let _ = apply_ops(&e, &[json!(["DelEdge", 0, "R", 1]), json!(["CreateEdge", 0, "R", 1]), json!(["RemNP", 1, "q"])], true); }),
+        eop!("abort", |e, k| { let _ = apply_ops(&e, &[json!(["CreateNode", (900000 + k).to_string(), "A"])], false); }),
+        eop!("compact", |e, k| { let _ = e.compact(); }),
+        eop!("checkpoint", |e, k| { let _ = e.checkpoint_on_close(); }),
+        eop!("create-index", |e, k| { let _ = e.create_index("A", if k % 2 == 0 { "p" } else { "q" }); }),
+        eop!("snapshot-scan", |e, k| { let s = e.snapshot(); let n: Vec<u32> = s.nodes().collect(); for x in n.iter().take(4) { let _ = s.neighbors(*x, None).count(); let _ = s.incoming_neighbors(*x, None).count(); } }),
+        eop!("snapshot-props", |e, k| { let s = e.snapshot(); let _ = s.node_property(0, "p"); let _ = s.node_properties(0); let _ = s.resolve_node_labels(0); let _ = s.resolve_external(0); let _ = s.edge_property(nervusdb_api::EdgeKey { src: 0, rel: 0, dst: 1 }, "w"); }),
+        eop!("lookup-index", |e, k| { let s = e.snapshot(); let _ = s.lookup_index("A", "p", &nervusdb_api::PropertyValue::Int(1)); }),
+        eop!("lookup-id", |e, k| { let _ = e.lookup_internal_id(1); }),
+        eop!("set-vector", |e, k| { let _ = apply_ops(&e, &[json!(["SetVec", 0, [0.5, (k % 3) as f64]])], true); }),
+        eop!("search-vector", |e, k| { let _ = e.search_vector(&[0.5, 1.0], 2); }),
+        eop!("stats", |e, k| { let s = e.snapshot(); let _ = s.node_count(None); let _ = s.edge_count(None); }),
+    ];
+    let r1 = lock_universe("engine", obs, ops, out, stress_threads, stress_iters);
+    drop(engine);
+
+    let dir2 = scratch.join("locks-db");
+    let _ = std::fs::remove_dir_all(&dir2);
+    std::fs::create_dir_all(&dir2).unwrap();
+    let db = Arc::new(nervusdb_core::Db::open(dir2.join("g")).expect("open db"));
+    let none = nervusdb_query::Params::new();
+    let _ = crate::cypher::run_write(&db, "CREATE (:A {p: 1})-[:R]->(:B {p: 2})-[:R]->(:A {p: 3})", &none);
+    let _ = db.create_index("A", "p");
+    macro_rules! dop { ($name:expr, |$d:ident, $k:ident| $body:block) => {{ let $d = db.clone(); ($name, Box::new(move |$k: u64| { let _ = &$k; $body }) as Box<dyn Fn(u64) + Send + Sync>) }}; }
+    let w = |d: &nervusdb_core::Db, q: &str| { let _ = crate::cypher::run_write(d, q, &nervusdb_query::Params::new()); };
+    let r = |d: &nervusdb_core::Db, q: &str| { let _ = crate::cypher::run_read(d, q, &nervusdb_query::Params::new()); };
+    let ops2: Vec<LockOp> = vec![
+        dop!("cy-create", |d, k| { w(&d, &format!("CREATE (:A {{p: {}}})-[:R]->(:B {{p: 2}})", k % 4)); }),
+        dop!("cy-create-new-label", |d, k| { w(&d, &format!("CREATE (:N{} {{p: 1}})-[:T{}]->(:B)", k % 9, k % 6)); }),
+        dop!("cy-merge", |d, k| { w(&d, &format!("MERGE (n:A {{p: 1}}) SET n.q = {}", k % 5)); }),
+        dop!("cy-match-set", |d, k| { w(&d, "MATCH (a:A)-[r:R]->(b) SET r.w = 1, b.seen = true"); }),
+        dop!("cy-delete", |d, k| { w(&d, "MATCH (n:B) WITH n LIMIT 1 DETACH DELETE n"); }),
+        dop!("cy-remove", |d, k| { w(&d, "MATCH (n:A) REMOVE n.q"); }),
+        dop!("cy-read-scan", |d, k| { r(&d, "MATCH (a:A)-[:R]->(b) RETURN count(*)"); }),
+        dop!("cy-read-index", |d, k| { r(&d, "MATCH (n:A) WHERE n.p = 1 RETURN n"); }),
+        dop!("cy-read-varlen", |d, k| { r(&d, "MATCH (a)-[*1..2]->(b) RETURN count(b)"); }),
+        dop!("cy-read-props", |d, k| { r(&d, "MATCH (a)-[r]->(b) RETURN a, r, b, labels(a), type(r), properties(b) LIMIT 5"); }),
+        dop!("cy-read-optional", |d, k| { r(&d, "MATCH (a:A) OPTIONAL MATCH (a)<-[r]-(b) RETURN a.p, collect(b.p)"); }),
+        dop!("db-compact", |d, k| { let _ = d.compact(); }),
+        dop!("db-checkpoint", |d, k| { let _ = d.checkpoint(); }),
+        dop!("db-create-index", |d, k| { let _ = d.create_index("A", if k % 2 == 0 { "p" } else { "q" }); }),
+        dop!("db-search-vector", |d, k| { let _ = d.search_vector(&[0.5, 1.0], 2); }),
+        dop!("db-txn", |d, k| { let mut t = d.begin_write(); let l = t.get_or_create_label("A"); if let Ok(l) = l { if let Ok(n) = t.create_node(k + 7_000_000, l) { let _ = t.set_vector(n, vec![0.25, 0.5]); } } let _ = t.commit(); }),
+        dop!("db-read-txn", |d, k| { let t = d.begin_read(); let _ = t.neighbors(0, None).count(); let s = d.snapshot(); let _ = s.nodes().count(); }),
+    ];
+    let r2 = lock_universe("db", obs, ops2, out, stress_threads, stress_iters);
+    json!({"universes": [r1, r2]})
 }
